@@ -69,6 +69,6 @@ Definition clean_orig (s : state) : Outcome (state * error) (state * list reques
 Definition step_orig (s : state) (o : op) : R reply :=
   match o with
   | Out r => do (s, p) <- handle_outgoing_packet_orig s r; Ok (s, Wrote p)
-  | In pk => do (s, p) <- handle_incoming_packet_orig s pk; Ok (s, Wrote p)
+  | Inc pk => do (s, p) <- handle_incoming_packet_orig s pk; Ok (s, Wrote p)
   | Clean => do (s, l) <- clean_orig s; Ok (s, Cleaned l)
   end.
